@@ -124,22 +124,36 @@ def draw_species_energy(rnd):
 
 
 def draw_lsr(rnd):
+    """pmutt.statmech.lsr.LSR, or ExtendedLSR (several reference reactions); every component given as a float
+    (kcal/mol) or as an object (a Reaction of species / a species), the surface and gas left at their default"""
     form = rnd.choice(['float', 'objects', 'mixed'])
-    p = {'form': form, 'slope': rnd.choice([0.0, 1.0, 0.5, rnd.uniform(0, 1)]),
-         'intercept': rnd.choice([0.0, rnd.uniform(-30, 30)])}
-    if form == 'float':
-        p['reaction'] = rnd.choice([0.0, rnd.uniform(-150, 20)])
-        p['surf'] = rnd.choice([None, 0.0, rnd.uniform(-500, 0)])          # None: left at its default (0.)
-        p['gas'] = rnd.choice([None, rnd.uniform(-500, 0)])
-    else:
-        nreac, nprod = rnd.randint(1, 2), rnd.randint(1, 2)
-        p['reaction'] = {'reactants': [draw_species_energy(rnd) for _ in range(nreac)],
-                         'rstoich': [rnd.choice([1.0, 1.0, 2.0, 0.5]) for _ in range(nreac)],
-                         'products': [draw_species_energy(rnd) for _ in range(nprod)],
-                         'pstoich': [rnd.choice([1.0, 1.0, 2.0]) for _ in range(nprod)]}
-        p['surf'] = draw_species_energy(rnd)
-        p['gas'] = draw_species_energy(rnd) if form == 'objects' else rnd.uniform(-500, 0)
-    return p
+    ext = rnd.random() < 0.3
+    nterm = rnd.randint(2, 3) if ext else 1
+
+    def comp(kind, as_obj):
+        if kind == 'reaction':
+            if not as_obj:
+                return rnd.choice([0.0, rnd.uniform(-150, 20)])
+            nreac, nprod = rnd.randint(1, 2), rnd.randint(1, 2)
+            return {'reactants': [draw_species_energy(rnd) for _ in range(nreac)],
+                    'rstoich': [rnd.choice([1.0, 1.0, 2.0, 0.5]) for _ in range(nreac)],
+                    'products': [draw_species_energy(rnd) for _ in range(nprod)],
+                    'pstoich': [rnd.choice([1.0, 1.0, 2.0]) for _ in range(nprod)]}
+        return draw_species_energy(rnd) if as_obj else rnd.choice([0.0, rnd.uniform(-500, 0)])
+
+    terms = []
+    for t in range(nterm):
+        if form == 'mixed':
+            objs = [rnd.random() < 0.5 for _ in range(3)]
+            if t == 0:
+                objs = rnd.choice([[True, False, True], [False, True, False], [True, True, False]])
+        else:
+            objs = [form == 'objects'] * 3
+        terms.append({'slope': rnd.choice([0.0, 1.0, 0.5, rnd.uniform(0, 1)]), 'reaction': comp('reaction', objs[0]),
+                      'surf': comp('surf', objs[1]), 'gas': comp('gas', objs[2])})
+    return {'form': form, 'extended': ext, 'intercept': rnd.choice([0.0, rnd.uniform(-30, 30)]), 'terms': terms,
+            # the surface / gas argument omitted (documented default: 0)
+            'surf_default': form == 'float' and rnd.random() < 0.4, 'gas_default': form == 'float' and rnd.random() < 0.3}
 
 
 def draw_params(rnd, cfg, edge='interior', physical=True):
@@ -239,24 +253,37 @@ def _species_from(d):
 
 def lsr_kwargs(pe):
     from pmutt.reaction import Reaction
-    kw = {'slope': pe['slope'], 'intercept': pe['intercept']}
-    if isinstance(pe['reaction'], dict):
-        rx = pe['reaction']
-        kw['reaction'] = Reaction(reactants=[_species_from(d) for d in rx['reactants']], reactants_stoich=list(rx['rstoich']),
-                                  products=[_species_from(d) for d in rx['products']], products_stoich=list(rx['pstoich']))
+
+    def rxn(r):
+        if not isinstance(r, dict):
+            return r
+        return Reaction(reactants=[_species_from(d) for d in r['reactants']], reactants_stoich=list(r['rstoich']),
+                        products=[_species_from(d) for d in r['products']], products_stoich=list(r['pstoich']))
+
+    def spc(x):
+        return _species_from(x) if isinstance(x, dict) else x
+
+    terms = pe['terms']
+    if pe['extended']:
+        kw = {'slopes': [t['slope'] for t in terms], 'intercept': pe['intercept'], 'reactions': [rxn(t['reaction']) for t in terms]}
+        if not pe['surf_default']:
+            kw['surf_species'] = [spc(t['surf']) for t in terms]
+        if not pe['gas_default']:
+            kw['gas_species'] = [spc(t['gas']) for t in terms]
     else:
-        kw['reaction'] = pe['reaction']
-    for key, name in (('surf', 'surf_species'), ('gas', 'gas_species')):
-        if pe[key] is None:
-            continue
-        kw[name] = _species_from(pe[key]) if isinstance(pe[key], dict) else pe[key]
+        t = terms[0]
+        kw = {'slope': t['slope'], 'intercept': pe['intercept'], 'reaction': rxn(t['reaction'])}
+        if not pe['surf_default']:
+            kw['surf_species'] = spc(t['surf'])
+        if not pe['gas_default']:
+            kw['gas_species'] = spc(t['gas'])
     return kw
 
 
 def mode_spec(slot, kind, p):
     """(class, keyword arguments) of one mode; None for the placeholder"""
     from pmutt.statmech import EmptyMode, ConstantMode, trans, vib, rot, elec, nucl
-    from pmutt.statmech.lsr import LSR
+    from pmutt.statmech.lsr import LSR, ExtendedLSR
     q = p.get(slot, {})
     if kind == 'FreeTrans':
         return trans.FreeTrans, {'n_degrees': q['n'], 'molecular_weight': q['M']}
@@ -279,7 +306,7 @@ def mode_spec(slot, kind, p):
     if kind == 'GroundState':
         return elec.GroundStateElec, {'potentialenergy': q['E'], 'spin': q['spin']}
     if kind == 'LSR':
-        return LSR, lsr_kwargs(q)
+        return (ExtendedLSR if q['extended'] else LSR), lsr_kwargs(q)
     if kind == 'EmptyNucl':
         return nucl.EmptyNucl, {}
     if kind == 'Constant':
@@ -403,28 +430,38 @@ def _energies_of(d):
 
 
 def lsr_event(mode, pe, T):
-    """linear scaling relation: the energies of the objects the relation is built on are the logged arguments
-    (eV, ground-state potential energies); for float inputs (kcal/mol) the energies the held sub-objects report"""
+    """linear scaling relation: per reference term the slope, what the held reaction / surface / gas object
+    reports (kcal/mol; the composition form of the relation) and, for components given as objects, the logged
+    ground-state energies (eV) those reports are tied to"""
     kc = 'kcal/mol'
-    e = {'ev': 'lsr', 'form': pe['form'], 'T': to_dec(T), 'slope': to_dec(pe['slope']), 'intercept': to_dec(pe['intercept']),
-         'U': to_dec(call(mode, 'get_UoRT', T=T)), 'H': to_dec(call(mode, 'get_HoRT', T=T)),
-         'S': to_dec(call(mode, 'get_SoR')), 'Cv': to_dec(call(mode, 'get_CvoR')), 'Cp': to_dec(call(mode, 'get_CpoR')),
-         'F': to_dec(call(mode, 'get_FoRT', T=T)), 'G': to_dec(call(mode, 'get_GoRT', T=T)),
-         # what the held sub-objects report (composition form of the relation), kcal/mol
-         'sub': [to_dec(float(mode.reaction.get_delta_E(units=kc, T=T))), to_dec(float(mode.surf_species.get_E(units=kc, T=T))),
-                 to_dec(float(mode.gas_species.get_E(units=kc, T=T)))],
-         'objects': pe['form'] == 'objects'}
-    if pe['form'] == 'objects':
-        rx = pe['reaction']
-        e['eR'] = [to_dec(d['E']) for d in rx['reactants']]
-        e['nR'] = [to_dec(s) for s in rx['rstoich']]
-        e['eP'] = [to_dec(d['E']) for d in rx['products']]
-        e['nP'] = [to_dec(s) for s in rx['pstoich']]
-        e['eS'] = to_dec(pe['surf']['E'])
-        e['eG'] = to_dec(pe['gas']['E'])
+    if pe['extended']:
+        rxns, surfs, gases = list(mode.reactions), list(mode.surf_species), list(mode.gas_species)
     else:
-        e.update({'eR': [], 'nR': [], 'eP': [], 'nP': [], 'eS': ZD, 'eG': ZD})
-    return e
+        rxns, surfs, gases = [mode.reaction], [mode.surf_species], [mode.gas_species]
+    terms = []
+    for t, r, su, ga in zip(pe['terms'], rxns, surfs, gases):
+        rx = t['reaction']
+        robj = isinstance(rx, dict)
+        sobj = isinstance(t['surf'], dict) and not pe['surf_default']
+        gobj = isinstance(t['gas'], dict) and not pe['gas_default']
+        terms.append({'slope': to_dec(t['slope']),
+                      'sub': [to_dec(float(r.get_delta_E(units=kc, T=T))), to_dec(float(su.get_E(units=kc, T=T))),
+                              to_dec(float(ga.get_E(units=kc, T=T)))],
+                      'rxnObj': robj, 'surfObj': sobj, 'gasObj': gobj,
+                      'eR': [to_dec(d['E']) for d in rx['reactants']] if robj else [],
+                      'nR': [to_dec(x) for x in rx['rstoich']] if robj else [],
+                      'eP': [to_dec(d['E']) for d in rx['products']] if robj else [],
+                      'nP': [to_dec(x) for x in rx['pstoich']] if robj else [],
+                      'eS': to_dec(t['surf']['E']) if sobj else ZD, 'eG': to_dec(t['gas']['E']) if gobj else ZD,
+                      # float components (kcal/mol) as given; an omitted surface / gas is the documented 0
+                      'fS': to_dec(0.0 if pe['surf_default'] else t['surf']) if not sobj else ZD,
+                      'fG': to_dec(0.0 if pe['gas_default'] else t['gas']) if not gobj else ZD,
+                      'fR': to_dec(rx) if not robj else ZD})
+    return {'ev': 'lsr', 'form': pe['form'], 'extended': bool(pe['extended']), 'T': to_dec(T), 'intercept': to_dec(pe['intercept']),
+            'nterms': len(pe['terms']), 'terms': terms,
+            'U': to_dec(call(mode, 'get_UoRT', T=T)), 'H': to_dec(call(mode, 'get_HoRT', T=T)),
+            'S': to_dec(call(mode, 'get_SoR')), 'Cv': to_dec(call(mode, 'get_CvoR')), 'Cp': to_dec(call(mode, 'get_CpoR')),
+            'F': to_dec(call(mode, 'get_FoRT', T=T)), 'G': to_dec(call(mode, 'get_GoRT', T=T))}
 
 
 def mode_events(slot, kind, mode, p, T, P):
@@ -637,9 +674,13 @@ def apply_edit(rnd, cfg, p, modes):
         modes['elec'].potentialenergy = p['elec']['E']
         n += 1
     elif cfg['elec'] == 'LSR':
-        p['elec']['slope'] = rnd.uniform(0, 1)
+        for t in p['elec']['terms']:
+            t['slope'] = rnd.uniform(0, 1)
         p['elec']['intercept'] = rnd.uniform(-30, 30)
-        modes['elec'].slope = p['elec']['slope']
+        if p['elec']['extended']:
+            modes['elec'].slopes = [t['slope'] for t in p['elec']['terms']]
+        else:
+            modes['elec'].slope = p['elec']['terms'][0]['slope']
         modes['elec'].intercept = p['elec']['intercept']
         n += 1
     return n
@@ -787,6 +828,7 @@ def exec_config(case):
         # ---- electronic energy, include_ZPE
         events.append(energy_event(sp, modes, kinds, haves, T, R_UNITS[(idx + k) % 16][:-2]))
         hit('energy')
+        hit('energy_unit:' + R_UNITS[(idx + k) % 16][:-2])
         hit('energy_vib:' + cfg['vib'])
         if not physical:
             continue
@@ -864,6 +906,9 @@ def exec_config(case):
             events.extend(mode_events(slot, kind, modes[slot], p, T, P))
             if kind == 'LSR':
                 hit('lsr:' + p['elec']['form'])
+                hit('lsr:extended' if p['elec']['extended'] else 'lsr:single')
+                if p['elec']['surf_default'] or p['elec']['gas_default']:
+                    hit('lsr:default_species')
             if kind == 'QRRHO':
                 hit('alpha:%d' % p['vib']['alpha'])
             if kind == 'FreeTrans':
@@ -1035,12 +1080,13 @@ PRESET_CFGS = {
 # coverage classes that every run must reach (zero => the run is vacuous, exit 2)
 def required_counters():
     req = ['form:instances', 'form:classes', 'routed', 'edits', 'missing', 'missing_lacking', 'missing_dim', 'energy',
-           'argtype', 'verbose_refs', 'misc:single', 'misc:list', 'lsr:float', 'lsr:objects', 'lsr:mixed',
+           'argtype', 'verbose_refs', 'misc:single', 'misc:list', 'lsr:float', 'lsr:objects', 'lsr:mixed', 'lsr:extended', 'lsr:single', 'lsr:default_species',
            'alpha:2', 'alpha:4', 'alpha:6', 'n_degrees:1', 'n_degrees:2', 'n_degrees:3',
            'q_include_ZPE:default', 'q_include_ZPE:True', 'q_include_ZPE:False',
            'geomform:functions', 'geomform:modes', 'geomform:preset']
     req += ['preset:' + k for k in PRESET_CFGS]
     req += ['unit:' + u for u in ALL_UNITS]
+    req += ['energy_unit:' + u[:-2] for u in R_UNITS]
     req += ['energy_vib:' + v for v in ('Harmonic', 'QRRHO', 'Einstein', 'Debye', 'Empty', 'Constant', 'Partial')]
     for key in RANGES:
         req += [key + '=lo', key + '=hi', key + '~lo', key + '~hi']
